@@ -205,3 +205,506 @@ Proof.
   - inversion H as [|? ? Hp Hl]; subst. cbn [map concat fst snd parse_responses].
     rewrite (parse_one_wire m s _ Hp). rewrite (IH Hl). reflexivity.
 Qed.
+
+(** ------------------------------------------------------------------------------------------
+    B. the send path
+    ------------------------------------------------------------------------------------------ *)
+Lemma existsb_filter_nil {A} (f : A -> bool) l : existsb f l = false <-> filter f l = [].
+Proof.
+  induction l as [|x l IH]; cbn [existsb filter]; [tauto|].
+  destruct (f x); cbn [orb]; [split; discriminate | exact IH].
+Qed.
+
+Lemma hm_remove_Forall (P : bytes * bytes -> Prop) n hs : Forall P hs -> Forall P (hm_remove n hs).
+Proof.
+  induction 1 as [|h r Hh Hr IH]; cbn [hm_remove]; [constructor|].
+  destruct (beq (fst h) n); [assumption | constructor; assumption].
+Qed.
+Lemma hm_insert_Forall (P : bytes * bytes -> Prop) n v hs : P (n, v) -> Forall P hs -> Forall P (hm_insert n v hs).
+Proof.
+  intros Hnv. induction 1 as [|h r Hh Hr IH]; cbn [hm_insert]; [repeat constructor; assumption|].
+  destruct (beq (fst h) n); constructor; try assumption. apply hm_remove_Forall. assumption.
+Qed.
+
+Lemma is_name_same_fst a h n v : fst h = n -> is_name a h = is_name a (n, v).
+Proof. unfold is_name. cbn [fst]. intros ->. reflexivity. Qed.
+
+(** inserting another name does not touch the headers called [a] *)
+Lemma filter_hm_remove_other a n hs :
+  (forall v, is_name a (n, v) = false) -> filter (is_name a) (hm_remove n hs) = filter (is_name a) hs.
+Proof.
+  intros Hn. induction hs as [|h r IH]; cbn [hm_remove filter]; [reflexivity|].
+  destruct (beq (fst h) n) eqn:E.
+  - apply beq_eq in E. rewrite (is_name_same_fst a h n [] E), Hn. exact IH.
+  - cbn [filter]. rewrite IH. reflexivity.
+Qed.
+Lemma filter_hm_insert_other a n v hs :
+  (forall w, is_name a (n, w) = false) -> filter (is_name a) (hm_insert n v hs) = filter (is_name a) hs.
+Proof.
+  intros Hn. induction hs as [|h r IH]; cbn [hm_insert filter]; [rewrite Hn; reflexivity|].
+  destruct (beq (fst h) n) eqn:E.
+  - apply beq_eq in E. cbn [filter]. rewrite Hn, (is_name_same_fst a h n [] E), Hn.
+    apply filter_hm_remove_other. assumption.
+  - cbn [filter]. rewrite IH. reflexivity.
+Qed.
+
+(** inserting a (lower-case) name into a map of lower-case names leaves exactly one header of that name *)
+Lemma filter_hm_remove_same n hs : names_lower hs -> filter (is_name n) (hm_remove n hs) = [].
+Proof.
+  induction 1 as [|h r Hh Hr IH]; cbn [hm_remove]; [reflexivity|].
+  destruct (beq (fst h) n) eqn:E; [assumption|].
+  cbn [filter]. unfold is_name at 1. rewrite Hh, E. assumption.
+Qed.
+Lemma filter_hm_insert_same n v hs :
+  lower n = n -> names_lower hs -> filter (is_name n) (hm_insert n v hs) = [(n, v)].
+Proof.
+  intros Hn. induction 1 as [|h r Hh Hr IH]; cbn [hm_insert filter].
+  - unfold is_name. cbn [fst]. rewrite Hn, beq_refl. reflexivity.
+  - destruct (beq (fst h) n) eqn:E.
+    + cbn [filter]. unfold is_name at 1. cbn [fst]. rewrite Hn, beq_refl.
+      rewrite (filter_hm_remove_same n r Hr). reflexivity.
+    + cbn [filter]. unfold is_name at 1. rewrite Hh, E. assumption.
+Qed.
+
+Lemma hm_remove_lower n hs : names_lower hs -> names_lower (hm_remove n hs).
+Proof. apply hm_remove_Forall. Qed.
+Lemma hm_insert_lower n v hs : lower n = n -> names_lower hs -> names_lower (hm_insert n v hs).
+Proof. intros Hn. apply hm_insert_Forall. exact Hn. Qed.
+
+Lemma all_digits_value_ok ds : all_digits ds = true -> value_ok ds = true.
+Proof.
+  unfold all_digits, value_ok. apply forallb_impl. intros c H. unfold is_digit in H. unfold value_byte. lia.
+Qed.
+Lemma value_ok_dec n : value_ok (dec n) = true.
+Proof. destruct (dec_spec n) as (ds & E & _ & Hd & _). rewrite E. apply all_digits_value_ok. assumption. Qed.
+Lemma parse_length_dec n : parse_length (dec n) = Some n.
+Proof.
+  destruct (dec_spec n) as (ds & E & Hne & Hd & Hv). rewrite E. unfold parse_length.
+  destruct ds as [|c ds]; [congruence|]. rewrite Hd, Hv. reflexivity.
+Qed.
+Lemma value_ok_app a c : value_ok (a ++ c) = value_ok a && value_ok c.
+Proof. unfold value_ok. apply forallb_app'. Qed.
+
+(** what [apply_range] can return *)
+Lemma apply_range_ok rg st body x :
+  apply_range true rg st body = Ok x ->
+  (rg = None /\ r_status x = st /\ r_content_range x = None /\ r_body x = body) \/
+  (exists s e, rg = Some (s, e) /\ s < N.of_nat (length body) /\ r_status x = (if st =? 200 then 206 else st) /\
+               r_accept_ranges x = false /\
+               exists cr, r_content_range x = Some cr /\ value_ok cr = true).
+Proof.
+  unfold apply_range. destruct rg as [[s e]|].
+  - destruct (N.leb_spec (N.of_nat (length body)) s) as [Hle|Hlt]; [discriminate|].
+    destruct (sub_u64 true _ 1) as [ei| |]; cbn [obind]; try discriminate.
+    destruct (slice_chk _ _ body) as [sl| |]; cbn [obind]; try discriminate.
+    set (crv := B "bytes " ++ dec s ++ B "-" ++ dec ei ++ B "/" ++ dec (N.of_nat (length body))).
+    assert (Hcr : value_ok crv = true).
+    { unfold crv. rewrite !value_ok_app, !value_ok_dec. reflexivity. }
+    clearbody crv.
+    intros H. inversion H; subst; clear H. right. exists s, e. cbn [r_status r_accept_ranges r_content_range].
+    repeat split; try assumption.
+    exists crv. split; [reflexivity | assumption].
+  - intros H. inversion H; subst. left. repeat split.
+Qed.
+
+Lemma apply_range_no_panic s e st body :
+  s < e \/ N.of_nat (length body) <= s -> apply_range true (Some (s, e)) st body <> Panic.
+Proof.
+  intros H. unfold apply_range.
+  destruct (N.leb_spec (N.of_nat (length body)) s) as [Hle|Hlt]; [discriminate|].
+  destruct H as [Hse|]; [|lia].
+  set (re := if N.of_nat (length body) <=? e then N.of_nat (length body) else e).
+  assert (Hre : s < re /\ re <= N.of_nat (length body)).
+  { unfold re. destruct (N.leb_spec (N.of_nat (length body)) e); lia. }
+  unfold sub_u64. destruct (N.leb_spec 1 re) as [_|]; [|lia]. cbn [obind].
+  unfold slice_chk, slice_get.
+  destruct (Nat.leb_spec (N.to_nat s) (N.to_nat re)) as [_|]; [|lia].
+  destruct (Nat.leb_spec (N.to_nat re) (length body)) as [_|]; [|lia].
+  cbn [andb obind]. discriminate.
+Qed.
+
+(** the invariants of the [http] crate and of a sane handler, for what [handle_cache] returns *)
+Definition reply_ok (r : reply0) : Prop :=
+  100 <= r0_status r <= 999 /\ r0_version r <> 9 /\
+  Forall (fun x => hdr_ok x = true) (r0_headers r) /\ names_lower (r0_headers r) /\
+  filter (is_name s_transfer_encoding) (r0_headers r) = [] /\
+  (bodyless_status (r0_status r) = true -> r0_body r = []) /\
+  match r0_sanitize r with
+  | Some (Some (s, e)) => s < e \/ N.of_nat (length (r0_body r)) <= s
+  | _ => True
+  end.
+(** the response after the range step *)
+Definition mid_ok (r : reply0) : Prop :=
+  100 <= r0_status r <= 999 /\ r0_version r <> 9 /\
+  Forall (fun x => hdr_ok x = true) (r0_headers r) /\ names_lower (r0_headers r) /\
+  filter (is_name s_transfer_encoding) (r0_headers r) = [] /\
+  (bodyless_status (r0_status r) = true -> r0_body r = []).
+(** Package extensions may add and change headers, but leave version, status, [content-length] alone,
+    keep the [http] crate's invariants and do not add [transfer-encoding] *)
+Definition package_ok (pk : head -> head) : Prop := forall h,
+  hd_version (pk h) = hd_version h /\ hd_status (pk h) = hd_status h /\
+  (Forall (fun x => hdr_ok x = true) (hd_headers h) -> Forall (fun x => hdr_ok x = true) (hd_headers (pk h))) /\
+  (filter (is_name s_transfer_encoding) (hd_headers h) = [] -> filter (is_name s_transfer_encoding) (hd_headers (pk h)) = []) /\
+  filter (is_name s_content_length) (hd_headers (pk h)) = filter (is_name s_content_length) (hd_headers h).
+
+Lemma package_id_ok : package_ok (fun h => h).
+Proof. intros h. repeat split; auto. Qed.
+
+Section SendProofs.
+  Variable error_body : N -> option bytes -> bytes.
+  Variable package : head -> head.
+  Hypothesis Hpk : package_ok package.
+
+  Lemma default_error_mid code msg : 100 <= code <= 999 -> bodyless_status code = false -> mid_ok (default_error error_body code msg).
+  Proof.
+    intros Hc Hb. unfold mid_ok, default_error.
+    cbn [r0_status r0_version r0_headers r0_body].
+    split; [lia|]. split; [discriminate|]. split; [|split; [|split]].
+    - destruct msg as [m|]; [destruct (value_ok m) eqn:E|]; repeat constructor.
+      unfold hdr_ok. cbn [fst snd]. rewrite E. reflexivity.
+    - destruct msg as [m|]; [destruct (value_ok m)|]; repeat constructor.
+    - destruct msg as [m|]; [destruct (value_ok m)|]; reflexivity.
+    - rewrite Hb. discriminate.
+  Qed.
+
+  Lemma apply_sanitize_mid r : reply_ok r -> exists r1, apply_sanitize error_body r = Ok r1 /\ mid_ok r1.
+  Proof.
+    intros (Hst & Hv & Hhs & Hlo & Hte & Hbl & Hrg). unfold apply_sanitize.
+    destruct (r0_sanitize r) as [rg|].
+    2:{ exists r. split; [reflexivity|]. repeat split; assumption || lia. }
+    destruct (apply_range true rg (r0_status r) (r0_body r)) as [x|e|] eqn:E.
+    - eexists. split; [reflexivity|].
+      destruct (apply_range_ok _ _ _ _ E) as [(-> & Es & Ecr & Eb) | (s & e & -> & Hs & Es & Ear & cr & Ecr & Hcr)].
+      + rewrite Ecr. unfold mid_ok. cbn [r0_status r0_version r0_headers r0_body]. rewrite Es, Eb.
+        destruct (r_accept_ranges x).
+        * repeat split; try assumption; try lia.
+          -- apply hm_insert_Forall; [reflexivity | assumption].
+          -- apply hm_insert_lower; [reflexivity | assumption].
+          -- rewrite filter_hm_insert_other; [assumption | reflexivity].
+        * repeat split; try assumption; lia.
+      + rewrite Ecr, Ear. unfold mid_ok. cbn [r0_status r0_version r0_headers r0_body]. rewrite Es.
+        repeat split; try assumption.
+        * destruct (r0_status r =? 200); lia.
+        * destruct (r0_status r =? 200); lia.
+        * apply hm_insert_Forall; [|assumption]. unfold hdr_ok. cbn [fst snd]. rewrite Hcr. reflexivity.
+        * apply hm_insert_lower; [reflexivity | assumption].
+        * rewrite filter_hm_insert_other; [assumption | reflexivity].
+        * intros Hb. destruct (N.eqb_spec (r0_status r) 200) as [E2|E2]; [vm_compute in Hb; discriminate|].
+          rewrite (Hbl Hb) in Hs. cbn in Hs. lia.
+    - eexists. split; [reflexivity|]. apply default_error_mid; [lia | reflexivity].
+    - exfalso. destruct rg as [[s e]|]; [|discriminate]. exact (apply_range_no_panic s e _ _ Hrg E).
+  Qed.
+
+  Lemma connection_rule_props hs :
+    Forall (fun x => hdr_ok x = true) hs ->
+    Forall (fun x => hdr_ok x = true) (connection_rule hs) /\
+    (forall a, (forall w, is_name a (s_connection, w) = false) ->
+               filter (is_name a) (connection_rule hs) = filter (is_name a) hs).
+  Proof.
+    intros H. unfold connection_rule.
+    assert (Hins : Forall (fun x => hdr_ok x = true) (hm_insert s_connection s_keep_alive hs))
+      by (apply hm_insert_Forall; [reflexivity | assumption]).
+    destruct (assoc s_connection hs) as [v|]; [destruct (to_str_ok v && negb (beq v (B "close")))|];
+      (split; [assumption|]); intros a Ha; try reflexivity; apply filter_hm_insert_other; assumption.
+  Qed.
+
+  Lemma body_written_spec m body :
+    body_written m body = if m =? M_HEAD then [] else body.
+  Proof.
+    unfold body_written. destruct body as [|c body]; [destruct (m =? M_HEAD); reflexivity|].
+    cbn [negb andb]. destruct (N.eqb_spec m M_HEAD) as [->|Hne].
+    - reflexivity.
+    - cbn [negb]. rewrite orb_true_r. reflexivity.
+  Qed.
+
+  (** every output of the send path: well formed for the strict client, and the announced length is the
+      length of the representation whatever the method *)
+  Lemma send_facts m r : reply_ok r ->
+    exists r1 s, apply_sanitize error_body r = Ok r1 /\ send error_body package m r = Ok s /\
+      head_ok (st_head s) /\
+      announced (hd_headers (st_head s)) = Some (N.of_nat (length (r0_body r1))) /\
+      st_body s = (if m =? M_HEAD then [] else r0_body r1) /\
+      (bodyless_status (hd_status (st_head s)) = true -> r0_body r1 = []) /\
+      st_head s = (let hs2 := hm_insert s_content_length (dec (N.of_nat (length (r0_body r1)))) (r0_headers r1) in
+                   let h4 := package (mkHead (ensure_version (r0_version r1)) (r0_status r1) hs2) in
+                   mkHead (hd_version h4) (hd_status h4) (connection_rule (hd_headers h4))).
+  Proof.
+    intros Hr. destruct (apply_sanitize_mid r Hr) as (r1 & E1 & (Hst & Hv & Hhs & Hlo & Hte & Hbl)).
+    unfold send. rewrite E1. cbn [obind]. eexists r1, _. split; [reflexivity|]. split; [reflexivity|].
+    cbn [st_head st_body].
+    set (hs2 := hm_insert s_content_length (dec (N.of_nat (length (r0_body r1)))) (r0_headers r1)).
+    set (h3 := mkHead (ensure_version (r0_version r1)) (r0_status r1) hs2).
+    destruct (Hpk h3) as (Pv & Ps & Ph & Pt & Pc).
+    assert (Hhs2 : Forall (fun x => hdr_ok x = true) hs2).
+    { apply hm_insert_Forall; [|assumption]. unfold hdr_ok. cbn [fst snd]. rewrite value_ok_dec. reflexivity. }
+    assert (Hte2 : filter (is_name s_transfer_encoding) hs2 = []).
+    { unfold hs2. rewrite filter_hm_insert_other; [assumption | reflexivity]. }
+    assert (Hcl2 : filter (is_name s_content_length) hs2 = [(s_content_length, dec (N.of_nat (length (r0_body r1))))]).
+    { apply filter_hm_insert_same; [reflexivity | assumption]. }
+    destruct (connection_rule_props (hd_headers (package h3)) (Ph Hhs2)) as (Ch & Cf).
+    cbn [hd_version hd_status hd_headers].
+    split; [|split; [|split; [|split]]].
+    - unfold head_ok. cbn [hd_version hd_status hd_headers]. rewrite Pv, Ps. cbn [h3 hd_version hd_status].
+      split; [|split; [lia|split; [assumption|]]].
+      + unfold ensure_version.
+        destruct (N.eqb_spec (r0_version r1) 9) as [E9|_]; [congruence|].
+        destruct (N.eqb_spec (r0_version r1) 10) as [->|_]; [left; reflexivity|].
+        destruct (N.eqb_spec (r0_version r1) 11) as [->|_]; right; reflexivity.
+      + apply existsb_filter_nil. rewrite Cf; [|reflexivity]. apply Pt. assumption.
+    - unfold announced. rewrite Cf; [|reflexivity]. rewrite Pc. cbn [h3 hd_headers]. rewrite Hcl2.
+      cbn [snd]. apply parse_length_dec.
+    - apply body_written_spec.
+    - rewrite Ps. cbn [h3 hd_status]. assumption.
+    - reflexivity.
+  Qed.
+
+  Lemma send_framed m r s : reply_ok r -> send error_body package m r = Ok s -> framed m s.
+  Proof.
+    intros Hr Hs. destruct (send_facts m r Hr) as (r1 & s' & _ & Es & Hh & Ha & Hb & Hbl & _).
+    rewrite Hs in Es. inversion Es; subst s'. split; [assumption|].
+    unfold is_head_method. destruct (N.eqb_spec m M_HEAD) as [->|Hne]; cbn [orb].
+    - split; [assumption|]. unfold announced_ok_bodyless. unfold announced in Ha.
+      destruct (filter (is_name s_content_length) (hd_headers (st_head s))) as [|h [|h2 t]]; try discriminate.
+      rewrite Ha. reflexivity.
+    - destruct (bodyless_status (hd_status (st_head s))) eqn:Eb.
+      + rewrite Hb, (Hbl eq_refl). split; [reflexivity|].
+        unfold announced_ok_bodyless. unfold announced in Ha.
+        destruct (filter (is_name s_content_length) (hd_headers (st_head s))) as [|h [|h2 t]]; try discriminate.
+        rewrite Ha. reflexivity.
+      + rewrite Hb. assumption.
+  Qed.
+
+  Lemma send_never_panics m r : reply_ok r -> exists s, send error_body package m r = Ok s.
+  Proof. intros Hr. destruct (send_facts m r Hr) as (r1 & s & _ & Es & _). eauto. Qed.
+
+  (** [length_is_body]: content-length = number of body bytes written, for every method but HEAD *)
+  Lemma length_is_body_lemma m r s : reply_ok r -> m <> M_HEAD -> send error_body package m r = Ok s ->
+    announced (hd_headers (st_head s)) = Some (N.of_nat (length (st_body s))).
+  Proof.
+    intros Hr Hm Hs. destruct (send_facts m r Hr) as (r1 & s' & _ & Es & _ & Ha & Hb & _).
+    rewrite Hs in Es. inversion Es; subst s'. rewrite Hb.
+    destruct (N.eqb_spec m M_HEAD); [contradiction | assumption].
+  Qed.
+
+  (** [head_has_no_body]: for HEAD nothing follows the head, and the head — in particular the announced
+      length — is the one GET gets for the same reply of [handle_cache] *)
+  Lemma head_has_no_body_lemma r s : reply_ok r -> send error_body package M_HEAD r = Ok s ->
+    st_body s = [] /\
+    exists g, send error_body package M_GET r = Ok g /\ st_head g = st_head s /\
+              announced (hd_headers (st_head s)) = Some (N.of_nat (length (st_body g))).
+  Proof.
+    intros Hr Hs.
+    destruct (send_facts M_HEAD r Hr) as (r1 & s' & E1 & Es & _ & Ha & Hb & _ & Hh).
+    rewrite Hs in Es. inversion Es; subst s'. split; [exact Hb|].
+    destruct (send_facts M_GET r Hr) as (r1' & g & E1' & Eg & _ & _ & Hbg & _ & Hhg).
+    rewrite E1 in E1'. inversion E1'; subst r1'.
+    exists g. split; [assumption|]. split; [rewrite Hh, Hhg; reflexivity|].
+    rewrite Hbg. exact Ha.
+  Qed.
+End SendProofs.
+
+(** ------------------------------------------------------------------------------------------
+    C. the connection
+    ------------------------------------------------------------------------------------------ *)
+Lemma forall2_length {X Y} (R : X -> Y -> Prop) l1 l2 : Forall2 R l1 l2 -> length l1 = length l2.
+Proof. induction 1; cbn [length]; congruence. Qed.
+
+Lemma framing_roundtrip_forall2 ms ss :
+  Forall2 framed ms ss -> parse_responses ms (concat (map wire ss)) = Some (map observable ss).
+Proof.
+  induction 1 as [|m s ms ss Hf _ IH]; [reflexivity|].
+  cbn [map concat parse_responses]. rewrite (parse_one_wire m s _ Hf), IH. reflexivity.
+Qed.
+
+Lemma fixed_head_framed m st (hs : list (bytes * bytes)) body v :
+  100 <= st <= 999 -> bodyless_status st = false ->
+  v = dec (N.of_nat (length body)) ->
+  Forall (fun x => hdr_ok x = true) hs ->
+  filter (is_name s_transfer_encoding) hs = [] ->
+  filter (is_name s_content_length) hs = [(s_content_length, v)] ->
+  framed m (mkSent (mkHead 11 st hs) (if m =? M_HEAD then [] else body)).
+Proof.
+  intros Hst Hb -> Hhs Hte Hcl. split.
+  - unfold head_ok. cbn [st_head hd_version hd_status hd_headers].
+    split; [right; reflexivity|]. split; [assumption|]. split; [assumption|]. apply existsb_filter_nil. assumption.
+  - cbn [st_head st_body hd_status hd_headers]. rewrite Hb, orb_false_r. unfold is_head_method.
+    destruct (m =? M_HEAD).
+    + split; [reflexivity|]. unfold announced_ok_bodyless. rewrite Hcl. cbn [snd]. rewrite parse_length_dec. reflexivity.
+    + unfold announced. rewrite Hcl. cbn [snd]. apply parse_length_dec.
+Qed.
+
+Lemma limited_framed tmb m : framed m (limited tmb true m).
+Proof.
+  unfold limited. cbn [andb].
+  set (v := dec (N.of_nat (length tmb))).
+  assert (E : connection_rule (hm_insert s_content_length v
+            [(B "content-type", B "text/html; charset=utf-8"); (s_content_length, v); (B "content-encoding", B "identity")])
+          = [(B "content-type", B "text/html; charset=utf-8"); (s_content_length, v); (B "content-encoding", B "identity");
+             (s_connection, s_keep_alive)]) by reflexivity.
+  rewrite E.
+  apply (fixed_head_framed m 429 _ tmb v); try reflexivity; try lia.
+  repeat constructor. unfold hdr_ok. cbn [fst snd]. unfold v. rewrite value_ok_dec. reflexivity.
+Qed.
+
+Lemma no_host_framed eb m : framed m (no_host eb true m).
+Proof.
+  unfold no_host. cbn [andb].
+  set (body := r0_body (default_error eb 409 (Some (B "The host you're looking for wasn't found.")))).
+  set (v := dec (N.of_nat (length body))).
+  assert (E : connection_rule (hm_insert s_content_length v
+               (r0_headers (default_error eb 409 (Some (B "The host you're looking for wasn't found.")))))
+          = [(B "content-type", B "text/html; charset=utf-8"); (B "content-encoding", B "identity");
+             (B "reason", B "The host you're looking for wasn't found."); (s_content_length, v);
+             (s_connection, s_keep_alive)]) by reflexivity.
+  rewrite E.
+  apply (fixed_head_framed m 409 _ body v); try reflexivity; try lia.
+  repeat constructor. unfold hdr_ok. cbn [fst snd]. unfold v. rewrite value_ok_dec. reflexivity.
+Qed.
+
+Arguments h_q {Q} h. Arguments h_body {Q} h. Arguments h_early {Q} h. Arguments h_action {Q} h.
+
+Section BodyProofs.
+  Variable Q : Type.
+  Variable q_method : Q -> N.
+  Variable q_content_length : Q -> option bytes.
+
+  (** [unread_body]: with the repair, whatever part of the body the handler read ([lim]) and however the
+      body was split ([h_early]), the connection stays usable iff the client sent exactly the declared
+      body; if it sent less, the connection is closed after the response (end of stream / 30 s) *)
+  Lemma after_body_spec (h : hreq Q) (lim : option N) :
+    let declared := body_length (q_method (h_q h)) (q_content_length (h_q h)) in
+    let total := N.of_nat (length (h_body h)) in
+    N.min (N.of_nat (h_early h)) total <= declared ->
+    match lim with Some l => N.min declared l | None => 0 end <= total ->
+    after_body Q q_method q_content_length true h lim =
+      if total =? declared then Open [] else if total <? declared then Closed else Unmodelled.
+  Proof.
+    intros declared total He Hw. unfold declared, total in *. clear declared total. unfold after_body.
+    set (cl := body_length (q_method (h_q h)) (q_content_length (h_q h))) in *.
+    set (tot := N.of_nat (length (h_body h))) in *.
+    set (early := N.min (N.of_nat (h_early h)) tot) in *.
+    set (want := match lim with Some l => N.min cl l | None => 0 end) in *.
+    assert (Hwcl : want <= cl) by (unfold want; destruct lim; lia).
+    assert (Het : early <= tot) by (unfold early; lia).
+    destruct (N.ltb_spec cl early) as [|_]; [lia|].
+    destruct (N.ltb_spec (tot - early) (want - N.min want early)) as [|_]; [lia|].
+    destruct (N.eqb_spec tot cl) as [E|E].
+    - destruct (N.eqb_spec (tot - early - (want - N.min want early)) (cl - early - (want - N.min want early))); [reflexivity | lia].
+    - destruct (N.eqb_spec (tot - early - (want - N.min want early)) (cl - early - (want - N.min want early))); [lia|].
+      destruct (N.ltb_spec tot cl);
+        destruct (N.ltb_spec (tot - early - (want - N.min want early)) (cl - early - (want - N.min want early))); try reflexivity; lia.
+  Qed.
+
+End BodyProofs.
+
+Section ConnProofs.
+  Variables Q A : Type.
+  Variable q_method : Q -> N.
+  Variable q_content_length : Q -> option bytes.
+  Variable q_known_host : Q -> bool.
+  Variable q_head : Q -> bytes.
+  Variable app : A -> Q -> A * reply0 * option N.
+  Variable error_body : N -> option bytes -> bytes.
+  Variable package : Q -> head -> head.
+  Variable too_many_body : bytes.
+
+  Let declared (h : hreq Q) : N := body_length (q_method (h_q h)) (q_content_length (h_q h)).
+  Let total (h : hreq Q) : N := N.of_nat (length (h_body h)).
+
+  (** a client in the property's scope: it talks to a configured host, is not past the limiter's drop
+      level, and sends exactly the body it declares — in any split between the head's segment and later *)
+  Definition polite (h : hreq Q) : Prop :=
+    q_known_host (h_q h) = true /\ h_action h <> ADrop /\ total h = declared h.
+  Definition app_ok : Prop := forall a q, reply_ok (snd (fst (app a q))).
+  Definition packages_ok : Prop := forall q, package_ok (package q).
+
+  Lemma after_body_polite (h : hreq Q) (lim : option N) :
+    polite h -> after_body Q q_method q_content_length true h lim = Open [].
+  Proof.
+    intros (_ & _ & Ht). unfold total, declared in Ht. rewrite after_body_spec.
+    - rewrite Ht, N.eqb_refl. reflexivity.
+    - rewrite <- Ht. lia.
+    - rewrite <- Ht. destruct lim; lia.
+  Qed.
+
+  Hypothesis Happ : app_ok.
+  Hypothesis Hpk : packages_ok.
+
+  Lemma conn_polite : forall hs a, Forall polite hs ->
+    exists ss,
+      conn_run Q A q_method q_content_length q_known_host q_head app error_body package too_many_body true true a (Open []) hs
+        = (map Some ss, Open []) /\
+      serve_seq Q A q_method app error_body package too_many_body true a hs = map Ok ss /\
+      Forall2 framed (map (fun h => q_method (h_q h)) hs) ss.
+  Proof.
+    induction hs as [|h hs IH]; intros a Hp.
+    - exists []. repeat split. constructor.
+    - inversion Hp as [|? ? Hh Hrest]; subst. pose proof Hh as (Hk & Hd & Ht).
+      cbn [conn_run serve_seq]. unfold conn_step. rewrite Hk. cbn [negb].
+      destruct (h_action h) eqn:Ea; [| |congruence].
+      + destruct (app a (h_q h)) as [[a' r] lim] eqn:Eapp.
+        pose proof (Happ a (h_q h)) as Hr. rewrite Eapp in Hr. cbn [fst snd] in Hr.
+        destruct (send_never_panics error_body (package (h_q h)) (Hpk (h_q h)) (q_method (h_q h)) r Hr) as (s & Es).
+        rewrite Es. rewrite (after_body_polite h lim Hh).
+        destruct (IH a' Hrest) as (ss & E1 & E2 & E3). rewrite E1, E2.
+        exists (s :: ss). repeat split. cbn [map]. constructor; [|assumption].
+        exact (send_framed error_body (package (h_q h)) (Hpk (h_q h)) _ r s Hr Es).
+      + rewrite (after_body_polite h None Hh).
+        destruct (IH a Hrest) as (ss & E1 & E2 & E3). rewrite E1, E2.
+        exists (limited too_many_body true (q_method (h_q h)) :: ss). repeat split.
+        cbn [map]. constructor; [apply limited_framed | assumption].
+  Qed.
+
+  Lemma written_somes ss : written (map Some ss) = concat (map wire ss).
+  Proof. unfold written. rewrite map_map. reflexivity. Qed.
+
+  Lemma one_response_per_request_lemma hs a : Forall polite hs ->
+    exists ss,
+      conn_run Q A q_method q_content_length q_known_host q_head app error_body package too_many_body true true a (Open []) hs
+        = (map Some ss, Open []) /\
+      length ss = length hs /\
+      serve_seq Q A q_method app error_body package too_many_body true a hs = map Ok ss /\
+      parse_responses (map (fun h => q_method (h_q h)) hs) (written (map Some ss)) = Some (map observable ss).
+  Proof.
+    intros Hp. destruct (conn_polite hs a Hp) as (ss & E1 & E2 & E3). exists ss.
+    split; [assumption|]. split.
+    - apply forall2_length in E3. rewrite map_length in E3. symmetry. assumption.
+    - split; [assumption|]. rewrite written_somes. apply framing_roundtrip_forall2. assumption.
+  Qed.
+End ConnProofs.
+
+(** ---- witnesses: the code before the C08 repairs, and why the hypotheses are needed ---- *)
+Definition w_cfg : c8cfg :=
+  mkC8 (mkCfg true false true [] [] [] 500) [(B "/f.txt", B "0123456789abcdefghij")] [] 0.
+Definition w_req (m t : bytes) (hs : list (bytes * bytes)) (body : bytes) (early : nat) : c8req * bytes * nat :=
+  (mkC8req (d_request 0 m t hs) false (m ++ [32] ++ t ++ B " HTTP/1.1" ++ crlf), body, early).
+(** POST to a file (405, body not read), the ten body bytes arrive after the head; then GET *)
+Definition w_unread : list (c8req * bytes * nat) :=
+  [ w_req (B "POST") (B "/f.txt") [(B "content-length", B "10")] (B "0123456789") 0;
+    w_req (B "GET") (B "/f.txt") [] [] 0 ].
+Definition statuses (os : list (option sent)) : list (option N) :=
+  map (option_map (fun s => hd_status (st_head s))) os.
+
+Lemma unread_body_v0_witness :
+  (let '(os, fin) := c8_run false true w_cfg w_unread in
+   statuses os = [Some 405; None] /\ fin = Closed /\ parse_responses [M_POST; M_GET] (written os) = None) /\
+  (let '(os, fin) := c8_run true true w_cfg w_unread in
+   statuses os = [Some 405; Some 200] /\ fin = Open [] /\
+   option_map (map p_status) (parse_responses [M_POST; M_GET] (written os)) = Some [405; 200]).
+Proof. vm_compute. repeat split. Qed.
+
+(** a rate-limited HEAD: before the repair the 429 carried its body *)
+Lemma limited_head_v0_witness :
+  parse_responses [M_HEAD; M_GET] (wire (limited TOO_MANY false M_HEAD) ++ wire (limited TOO_MANY false M_GET)) = None /\
+  option_map (map p_status)
+    (parse_responses [M_HEAD; M_GET] (wire (limited TOO_MANY true M_HEAD) ++ wire (limited TOO_MANY true M_GET))) = Some [429; 429].
+Proof. vm_compute. split; reflexivity. Qed.
+
+(** a handler that answers 204 with a body breaks the framing: the hypothesis of [reply_ok] is needed *)
+Lemma bodyless_with_body_witness :
+  exists r s, send hardcoded_error_body (fun h => h) M_GET r = Ok s /\ r0_status r = 204 /\ r0_body r <> [] /\
+              parse_responses [M_GET] (wire s) = None.
+Proof.
+  exists (mkR0 11 204 [] (B "oops") (Some None)). eexists. split; [vm_compute; reflexivity|].
+  split; [reflexivity|]. split; [discriminate|]. vm_compute. reflexivity.
+Qed.
